@@ -49,7 +49,34 @@ def hello_spans_records(op, impl, model):
     return bool(m) and int(m.group(1)) > 0
 
 
+def trailers_after_early_response(op, impl, model):
+    """reset-in-flight: the FIRST point where the implementation departs from the specification is a request-trailer
+    HEADERS frame (class T/t) on a stream the server itself had closed with RST_STREAM(NO_ERROR) (complete response
+    before the request ended), and the implementation's reaction there is a GOAWAY with an error code"""
+    if not op.startswith('h2smrif '):
+        return False
+    m = re.search(r'ev=(\S+)', op)
+    if not m:
+        return False
+    toks = m.group(1).split(',')
+    io, mo = impl.split('/'), model.split('/')
+    early = set()
+    for k, t in enumerate(toks):
+        a = io[k] if k < len(io) else ''
+        b = mo[k] if k < len(mo) else ''
+        if a != b:
+            f = t[2:].split('.') if t.startswith('H:') else []
+            return (len(f) >= 4 and f[3][:1] in ('T', 't') and f[0] in early
+                    and any(x.startswith('G') and not x.endswith(':0') for x in a.split('+')))
+        for x in a.split('+'):
+            mm = re.fullmatch(r'R(\d+):0', x)
+            if mm:
+                early.add(mm.group(1))
+    return False
+
+
 MATCHERS = {
+    'trailers-after-early-response': trailers_after_early_response,
     'clienthello-spans-records': hello_spans_records,
     'symlink-swap-without-delete': swap_keep,
     'sni-list-length-typo': sni_len_typo,
